@@ -33,10 +33,12 @@ def shift_refs(x, pid, k):
 
 def run(ctx, res):
     import scenarios
-    fam = [] if ctx.replay else scenarios.pick(scenarios.family_a(), 450 if ctx.tier == "quick" else 10 ** 6, ctx.seed)
+    big = ctx.tier != "quick"
+    fam = [] if ctx.replay else (scenarios.pick(scenarios.family_a(), 10 ** 6 if big else 450, ctx.seed)
+                                 + scenarios.pick(scenarios.family_slices(), 10 ** 6 if big else 120, ctx.seed + 1))
     cases, obs, verdicts = pipeprop.run(ctx, res, "C08", PROFILE, n_quick=300, n_thorough=6000,
                                         probe_ids=("F09", "F16", "F39"), l2_steps=True, extra_cases=fam)
-    res.coverage["scenario_grid"] = {"family": "A (prefix x alias x verb x follower)", "cases": len(fam)}
+    res.coverage["scenario_grid"] = {"family": "A (prefix x alias x verb x follower) + slice chains (verbs that never need a subquery are compiled correctly)", "cases": len(fam)}
     # alias oracle
     tried = unblocked = 0
     for c, o in zip(cases, obs):
